@@ -24,7 +24,7 @@ RULE = (
 ASSUMPTIONS = ["reference tree validated against plain h5py (C01 selfcheck)",
                "not asserted: byte identity of merged vs. source files; skeleton patch indices of the merged manifest"]
 REQUIRED_CLASSES = {"all": ["followup_ge1", "source_ge3_containers", "mf_record", "plain_record",
-                            "merge_refused_uncommitted", "stub_merge_refused"]}
+                            "merge_refused_uncommitted", "stub_merge_refused", "second_generation_merge"]}
 BUDGET_S = {"quick": 900, "thorough": 3 * 3600}
 NSHARD = 16
 
@@ -153,6 +153,42 @@ def run_case(case, rec=None):
             finally:
                 m.close()
             classes.add("followup_ge1")
+        # 4b. second generation: merge [merged + follow-up patches] again (a source whose first container
+        # is not at patch index 0); the result must identify itself like the source's current state and
+        # accept the source's next patch
+        if patches:
+            meta_now = recutil.meta_dicts(r)
+            m = _open_set(cls, [str(merged_file)] + patches, "C05:merged-plus-patch-does-not-open", "for 2nd merge")
+            try:
+                try:
+                    merged2 = m.merge_files(Path(d) / "merged2")
+                except Exception as e:  # noqa: BLE001
+                    raise Violation("C05:merge-raises:second-generation", f"{type(e).__name__}: {e}", "merge succeeds")
+            finally:
+                m.close()
+            m2 = _open_set(cls, [merged2], "C05:merged-does-not-open", "second-generation merged container")
+            try:
+                mm = recutil.meta_dicts(m2)
+                exp_ub = dict(record_uuid=meta_now[0]["record_uuid"], patch_uuid=meta_now[-1]["patch_uuid"],
+                              patch_index=meta_now[-1]["patch_index"], prev_patch=None)
+                for k2, v2 in exp_ub.items():
+                    if mm[0][k2] != v2:
+                        raise Violation(f"C05:merged-ublock:{k2}:second-generation", f"{k2}={mm[0][k2]}", v2)
+                if dump_real(m2) != sess.tree.dump():
+                    raise Violation("C05:merged-view-differs:second-generation", diff_dumps(dump_real(m2), sess.tree.dump()), "")
+            finally:
+                m2.close()
+            r.create_patch()
+            sess.feed([["touch", 0, 0, {"t": "int", "v": 1}], ["set", 0, "zz2", {"t": "int", "v": 2}]])
+            r.commit_patch()
+            newp = str(r.ih5_files[-1])
+            m3 = _open_set(cls, [str(merged2), newp], "C05:merged-plus-patch-does-not-open", "[merged2, next patch of source]")
+            try:
+                if dump_real(m3) != sess.tree.dump():
+                    raise Violation("C05:merged-plus-patch-view-differs", diff_dumps(dump_real(m3), sess.tree.dump()), "")
+            finally:
+                m3.close()
+            classes.add("second_generation_merge")
         out = sess.finish()
         if len(files_before) >= 3:
             classes.add("source_ge3_containers")
